@@ -1,6 +1,6 @@
 (* C15 — the algebra fails only with ValueError and never yields malformed output. *)
 From Sigtools.Model Require Import Base Bind Roles Algebra.
-From Sigtools.Proofs Require Import SmallModel Basics RcValid.
+From Sigtools.Proofs Require Import SmallModel Basics RcValid RcValidN.
 
 Theorem C15_merge_wf ss r : merge ss = Ok r -> validate (params r) = true.
 Proof. exact (merge_wf ss r). Qed.
@@ -56,4 +56,14 @@ Print Assumptions C15_merge_rc_ok_iff_merger.
 Theorem C15_merge_valid_without_rc_refuted : exists a b : sigT, valid_sig (params a) = true /\ valid_sig (params b) = true /\ role_consistent [params a; params b] = false /\ merge [a; b] = Err ValueErr.
 Proof. exact @RcValid.merge_valid_without_rc_refuted. Qed.
 Print Assumptions C15_merge_valid_without_rc_refuted.
+
+
+(* ---- any number of role-consistent valid inputs ---- *)
+Theorem C15_merge_rc_valid_n : forall ss : list sigT, all_valid ss -> role_consistent (map params ss) = true -> merge ss <> Err ValueErr.
+Proof. exact @RcValidN.merge_rc_valid_n. Qed.
+Print Assumptions C15_merge_rc_valid_n.
+
+Theorem C15_merge_rc_only_incompatible_n : forall (s0 : sigT) (ss : list sigT) (e : err), all_valid (s0 :: ss) -> role_consistent (map params (s0 :: ss)) = true -> merge (s0 :: ss) = Err e -> e = Incompatible.
+Proof. exact @RcValidN.merge_rc_only_incompatible_n. Qed.
+Print Assumptions C15_merge_rc_only_incompatible_n.
 
